@@ -395,7 +395,74 @@ def _git(tmp, env, *a):
     return p.stdout.decode()
 
 
+def _replay_porcelain(v, native):
+    """the real reader on a stand-in git that prints the counterexample's porcelain text for `blame`
+    (every other git command is passed on to the real git)"""
+    import json
+    import os
+    import shutil
+    import subprocess
+    import tempfile
+    inp = v['inputs']
+    groups = inp['groups']
+    text = ''
+    for gi, (sha, o, f, n) in enumerate(groups):
+        sha40 = (sha * 5)[:40]
+        for j in range(n):
+            text += '%s %d %d%s\n' % (sha40, o + j, f + j, (' %d' % n) if j == 0 else '')
+            text += 'author A U Thor\nauthor-mail <a@u>\nauthor-time 1700000000\nauthor-tz +0000\ncommitter C\ncommitter-mail <c@u>\ncommitter-time 1700000001\ncommitter-tz +0000\nsummary 12 34 56\n'
+            if inp.get('previous') and gi == 0:
+                text += 'previous %s f.rs\n' % ('dddd4444' * 5)
+            if inp.get('boundary') and gi == len(groups) - 1:
+                text += 'boundary\n'
+            text += 'filename f.rs\n\tcontent 1 2 3\n'
+    tmp = tempfile.mkdtemp(prefix='vc09p')
+    try:
+        repo = os.path.join(tmp, 'r')
+        os.makedirs(repo)
+        env = dict(os.environ, HOME=tmp, GIT_AUTHOR_NAME='v', GIT_AUTHOR_EMAIL='v@v', GIT_COMMITTER_NAME='v', GIT_COMMITTER_EMAIL='v@v')
+        subprocess.run(['git', 'init', '-q', '.'], cwd=repo, env=env, check=True)
+        open(os.path.join(repo, 'f.rs'), 'w').write('x\n')
+        subprocess.run(['git', 'add', '-A'], cwd=repo, env=env, check=True)
+        subprocess.run(['git', 'commit', '-q', '-m', 'c'], cwd=repo, env=env, check=True)
+        out = os.path.join(tmp, 'porcelain.txt')
+        open(out, 'w').write(text)
+        real = shutil.which('git')
+        stand = os.path.join(tmp, 'standin-git')
+        with open(stand, 'w') as fh:
+            fh.write('#!/bin/sh\nfor a in "$@"; do if [ "$a" = "blame" ]; then cat %s; exit 0; fi; done\nexec %s "$@"\n' % (out, real))
+        os.chmod(stand, 0o755)
+        os.makedirs(os.path.join(tmp, '.git-ai'))
+        json.dump({'git_path': stand}, open(os.path.join(tmp, '.git-ai', 'config.json'), 'w'))
+        exe = native.__globals__['replay_binary']()
+        first = groups[0][2]
+        total = sum(g[3] for g in groups)
+        payload = {'repo': repo, 'file': 'f.rs', 'start': first, 'end': first + total - 1}
+        p = subprocess.run([exe, 'c09_porcelain'], input=json.dumps(payload).encode(), stdout=subprocess.PIPE, stderr=subprocess.PIPE, env=env, timeout=60)
+        if p.returncode == 101:
+            return {'reproduced': v['kind'] == 'panic', 'stderr': p.stderr.decode('utf-8', 'replace')[-300:]}
+        r = json.loads(p.stdout.decode().strip().splitlines()[-1])
+        if not r.get('ok'):
+            return {'reproduced': v['obligation'] == 'K4-parse-ok', 'native': r}
+        bad_cover = False
+        bad_line = False
+        for (sha, o, f, n) in groups:
+            sha40 = (sha * 5)[:40]
+            for j in range(n):
+                cov = [hk for hk in r['hunks'] if hk['range'][0] <= f + j <= hk['range'][1]]
+                if len(cov) != 1:
+                    bad_cover = True
+                if not any(hk['sha'] == sha40 and hk['orig'][0] + (f + j - hk['range'][0]) == o + j for hk in cov):
+                    bad_line = True
+        bad = {'K4-each-line-in-exactly-one-hunk': bad_cover, 'K4-line-keeps-commit-and-original-number': bad_line}
+        return {'reproduced': bool(bad.get(v['obligation'])), 'native': r}
+    finally:
+        subprocess.call(['rm', '-rf', tmp])
+
+
 def replay(v, native):
+    if v['obligation'].startswith('K4-'):
+        return _replay_porcelain(v, native)
     import os
     import subprocess
     import tempfile
